@@ -100,6 +100,34 @@ func c03Attach(srv *kit.Server, path, kind string) (*c03client, error) {
 				}
 			}
 		}()
+	case "multicast", "multicast-2":
+		// a multicast member: only its RTSP session is observed (closed by the server when the stream ends); the
+		// datagrams themselves are C01's subject
+		rc, err := kit.DialRTSP(srv.Addr)
+		if err != nil {
+			return nil, err
+		}
+		base := srv.URL(path)
+		for _, st := range [][3]string{{"DESCRIBE", base, ""}, {"SETUP", base + "/streamid=0", "RTP/AVP;multicast"}, {"PLAY", base, ""}} {
+			h := map[string]string{}
+			if st[2] != "" {
+				h["Transport"] = st[2]
+			}
+			if r, err := rc.Do(st[0], st[1], h, ""); err != nil || r.Code != 200 {
+				rc.Close()
+				return nil, fmt.Errorf("multicast handshake %s", st[0])
+			}
+		}
+		markGot()
+		cl.close = func() { rc.Close() }
+		go func() {
+			defer close(cl.ended)
+			for {
+				if _, err := rc.Next(10 * time.Minute); err != nil {
+					return
+				}
+			}
+		}()
 	case "wsp":
 		w, err := wspDial(srv.Addr, path)
 		if err != nil {
@@ -332,7 +360,7 @@ func c03RunService(c *kit.Ctx) {
 		c.Inconclusive("service part: admin login failed")
 		return
 	}
-	kinds := []string{"rtsp-tcp", "ws-rtsp", "wsp", "http-flv", "ws-flv", "rtsp-udp"}
+	kinds := []string{"rtsp-tcp", "ws-rtsp", "wsp", "http-flv", "ws-flv", "rtsp-udp", "multicast", "multicast-2"}
 	ends := []string{"publisher-disconnect", "replaced-then-old-publisher-disconnect", "rest-delete", "unregist-all"}
 	n := 0
 	for rep := 0; rep < c.Pick(1, 10); rep++ {
